@@ -1,5 +1,51 @@
-import Skglm.Real
-import Skglm.Model.Datafits
+import Skglm.Proofs.Datafits
+/-
+  C06 — datafits are faithful: documented loss, exact derivatives, dense = sparse.
+  (Single-task datafits Quadratic, WeightedQuadratic, Logistic, Huber, Poisson, Gamma,
+  QuadraticSVC; Cox, group and multitask accessors are covered by the correspondence only.)
+-/
 namespace Skglm.C06
-theorem placeholder : True := trivial
+open Skglm Skglm.Spec
+variable {n p : Nat}
+
+/-- `value()` equals the documented loss formula -/
+theorem value_eq_doc (d : DF ℝ) (sw y u : Fin n → ℝ) (w : Fin p → ℝ)
+    (hsw : d ≠ .wquadratic → ∀ i, sw i = 1) (hdelta : ∀ delta, d = .huber delta → 0 ≤ delta) :
+    d.value sw y u w = docValue d sw y u w := Proofs.value_eq_doc d sw y u w hsw hdelta
+
+/-- `raw_grad` is the gradient of the loss w.r.t. the linear predictor, at every point -/
+theorem rawGrad_is_deriv (d : DF ℝ) (sw y u : Fin n → ℝ) (w : Fin p → ℝ) (i : Fin n)
+    (hdelta : ∀ delta, d = .huber delta → 0 < delta) :
+    HasDerivAt (fun t => d.value sw y (Function.update u i t) w) (d.rawGrad sw y u i) (u i) :=
+  Proofs.rawGrad_hasDerivAt d sw y u w i hdelta
+
+/-- `gradient_scalar` is the partial derivative of `w ↦ value(Xw + b)` in `w_j`, for all data -/
+theorem gradScalar_is_deriv (d : DF ℝ) (X : Fin n → Fin p → ℝ) (sw y : Fin n → ℝ) (w : Fin p → ℝ)
+    (b : ℝ) (j : Fin p) (hdelta : ∀ delta, d = .huber delta → 0 < delta) :
+    HasDerivAt
+      (fun t => d.value sw y (fun i => (∑ k, X i k * (Function.update w j t) k) + b) (Function.update w j t))
+      (d.gradScalar X sw y (fun i => (∑ k, X i k * w k) + b) j) (w j) :=
+  Proofs.gradScalar_hasDerivAt d X sw y w b j hdelta
+
+/-- `intercept_update_step` is a positive multiple (`1/L_0`) of the derivative in the intercept -/
+theorem interceptStep_is_scaled_deriv (d : DF ℝ) (X : Fin n → Fin p → ℝ) (sw y : Fin n → ℝ)
+    (w : Fin p → ℝ) (b : ℝ) (hdelta : ∀ delta, d = .huber delta → 0 < delta) :
+    0 < d.interceptScale ∧ ∃ g, HasDerivAt (fun t => d.value sw y (fun i => (∑ k, X i k * w k) + t) w) g b ∧
+      d.interceptStep sw y (fun i => (∑ k, X i k * w k) + b) = d.interceptScale * g :=
+  Proofs.interceptStep_hasDerivAt d X sw y w b hdelta
+
+/-- every CSC gradient accessor returns the same number as the dense accessor on the matrix the CSC
+    structure represents (any size, explicit zeros, unsorted rows, duplicates) -/
+theorem sparse_grad_eq_dense (d : DF ℝ) (M : CSC ℝ n p) (sw y u : Fin n → ℝ) (j : Fin p) :
+    d.gradScalarSparse M sw y u j = d.gradScalar M.toDense sw y u j :=
+  Proofs.gradScalarSparse_eq_dense d M sw y u j
+
+/-- the in-place CSC update of the model fit equals the dense column update -/
+theorem sparse_axpy_eq_dense (M : CSC ℝ n p) (j : Fin p) (c : ℝ) (u : Fin n → ℝ) (i : Fin n) :
+    M.colAxpy j c u i = u i + c * M.toDense i j := Proofs.colAxpy_eq_dense M j c u i
+
+/-- non-vacuity: Huber with `delta = 1` at a residual exactly on the kink has the derivative `-1` -/
+example : (DF.huber (1:ℝ)).dloss1 2 1 = -1 := by
+  simp [DF.dloss1, sabs_eq, sgn]; norm_num
+
 end Skglm.C06
